@@ -145,10 +145,16 @@ def gen_case(rng):
     mask, mask_dtype, mask_key = None, "int16", rng.choice(["absent", "null"])
     r = rng.random()
     if r < 0.55 and not (nothing and rng.random() < 0.7):
-        mask_dtype = rng.choice(["int16", "int16", "uint8"])
-        lo = -3 if (mask_dtype == "int16" and rng.random() < 0.35) else 0
+        mask_dtype = rng.choice(["int16", "int16", "uint8", "uint16", "int32", "uint32"])
+        lo = -3 if (mask_dtype in ("int16", "int32") and rng.random() < 0.35) else 0
         zero = rng.random() < 0.12
         mask = [[0 if (zero or rng.random() < 0.6) else rng.randrange(lo, 4) for _ in range(cols)] for _ in range(rows)]
+        # values whose low byte / low half-word is zero: "non-zero" is about the value, not about a narrower view of it
+        wide = {"int16": [256, 512, -256, -32768], "uint16": [256, 32768, 65280],
+                "int32": [256, 65536, 131072, -65536, -2147483648, 1 << 24], "uint32": [256, 65536, 1 << 31, 3 << 16]}
+        if mask_dtype in wide and rng.random() < 0.6:
+            for _ in range(rng.randrange(1, 4)):
+                mask[rng.randrange(rows)][rng.randrange(cols)] = rng.choice(wide[mask_dtype])
         mask_key = "given"
     # disparity
     r = rng.random()
